@@ -50,7 +50,7 @@ theorem step_stdOutput (s : St) (e : Ev) (hc : s.crashed = false) :
   | groupStarted t => simp [step, hc, evsPrinted]
   | testStarted t => simp [step, hc, evsPrinted, onTestStarted]
   | veryVerbose x => simp [step, hc, evsPrinted]
-  | groupEnded ms => simp [step, hc, evsPrinted, onGroupEnded, reset]
+  | groupEnded ms => simp [step, hc, evsPrinted, onGroupEnded, reset_eq]
   | testsEnded sm => simp [step, hc, evsPrinted]
 
 theorem evsPrinted_cons (e : Ev) (es : List Ev) : evsPrinted (e :: es) = evsPrinted [e] ++ evsPrinted es := by
